@@ -6,12 +6,34 @@
 
 namespace vf {
 
-enum AliasForm { AF_PUSH = 0, AF_INSERT, AF_INSERT_N, AF_EMPLACE, AF_EMPLACE_PTR, AF_EMPLACE_BACK, AF_RESIZE, AF_ASSIGN, AF_APPEND, AF_N };
+enum AliasForm { AF_PUSH = 0, AF_INSERT, AF_INSERT_N, AF_EMPLACE, AF_EMPLACE_PTR, AF_EMPLACE_BACK, AF_RESIZE, AF_ASSIGN, AF_APPEND, AF_EMPLACE_FIELDS, AF_EMPLACE_BACK_FIELDS, AF_N };
 inline const char *afname(int f) {
   static const char *n[] = {"push_back(v[i])", "insert(pos,v[i])", "insert(pos,n,v[i])", "emplace(pos,v[i])", "emplace(pos,&v[i])", "emplace_back(v[i])",
-                            "resize(n,v[i])", "assign(n,v[i])", "append(n,v[i])"};
+                            "resize(n,v[i])", "assign(n,v[i])", "append(n,v[i])", "emplace(pos,v[i].key,v[i].pay)", "emplace_back(v[i].key,v[i].pay)"};
   return n[f];
 }
+
+// emplace whose arguments are references to *members* of an element (no argument has the element type or points to an element):
+// available for the element types that expose key / pay members
+template <class E, class = void>
+struct FieldAlias {
+  static const bool kAvailable = false;
+  template <class V, class It> static long emplace(V &, It, size_t) { return -2; }
+  template <class V> static void emplace_back(V &, size_t) {}
+};
+template <class E>
+struct FieldAlias<E, decltype(void(std::declval<E &>().key), void(std::declval<E &>().pay))> {
+  static const bool kAvailable = true;
+  template <class V, class It> static long emplace(V &v, It pos, size_t src) {
+    auto &e = v[static_cast<typename V::size_type>(src)];
+    auto it = v.emplace(pos, e.key, e.pay);
+    return static_cast<long>(it - v.begin());
+  }
+  template <class V> static void emplace_back(V &v, size_t src) {
+    auto &e = v[static_cast<typename V::size_type>(src)];
+    v.emplace_back(e.key, e.pay);
+  }
+};
 
 template <class Vec>
 struct AliasGrid : GridBase {
@@ -28,8 +50,9 @@ struct AliasGrid : GridBase {
       for (uintmax_t pos = 0; pos <= size && !g_cut; ++pos)
         for (uintmax_t src = 0; src < size && !g_cut; ++src)
           for (uintmax_t count = 0; count <= 3 && !g_cut; ++count) {
-            bool uses_pos = form == AF_INSERT || form == AF_INSERT_N || form == AF_EMPLACE || form == AF_EMPLACE_PTR;
+            bool uses_pos = form == AF_INSERT || form == AF_INSERT_N || form == AF_EMPLACE || form == AF_EMPLACE_PTR || form == AF_EMPLACE_FIELDS;
             bool uses_count = form == AF_INSERT_N || form == AF_RESIZE || form == AF_ASSIGN || form == AF_APPEND;
+            if ((form == AF_EMPLACE_FIELDS || form == AF_EMPLACE_BACK_FIELDS) && !FieldAlias<E>::kAvailable) continue;
             if (!uses_pos && pos != 0) continue;
             if (!uses_count && count != 1) continue;
             uintmax_t added = uses_count ? count : 1;
@@ -51,8 +74,9 @@ struct AliasGrid : GridBase {
         for (uintmax_t pos : {static_cast<uintmax_t>(0), size / 2, size})
           for (uintmax_t src : {static_cast<uintmax_t>(0), static_cast<uintmax_t>(127), static_cast<uintmax_t>(128), size - 1})
             for (uintmax_t count = 1; count <= 2 && !g_cut; ++count) {
-              bool uses_pos = form == AF_INSERT || form == AF_INSERT_N || form == AF_EMPLACE || form == AF_EMPLACE_PTR;
+              bool uses_pos = form == AF_INSERT || form == AF_INSERT_N || form == AF_EMPLACE || form == AF_EMPLACE_PTR || form == AF_EMPLACE_FIELDS;
               bool uses_count = form == AF_INSERT_N || form == AF_RESIZE || form == AF_ASSIGN || form == AF_APPEND;
+              if ((form == AF_EMPLACE_FIELDS || form == AF_EMPLACE_BACK_FIELDS) && !FieldAlias<E>::kAvailable) continue;
               if (!uses_pos && pos != 0) continue;
               if (!uses_count && count != 1) continue;
               if (spare == SP_NATURAL || spare == SP_MORE) continue;
@@ -88,6 +112,8 @@ struct AliasGrid : GridBase {
       case AF_RESIZE: window([&] { v.resize(static_cast<SizeT>(result), v[static_cast<SizeT>(src)]); }); m.resize(result, x); break;
       case AF_ASSIGN: window([&] { v.assign(static_cast<SizeT>(result), v[static_cast<SizeT>(src)]); }); m.assign(result, x); break;
       case AF_APPEND: window([&] { v.append(static_cast<SizeT>(count), v[static_cast<SizeT>(src)]); }); m.insert(m.end(), count, x); break;
+      case AF_EMPLACE_FIELDS: window([&] { ret = FieldAlias<E>::emplace(v, v.begin() + pos, src); }); m.insert(m.begin() + pos, x); exp = pos; break;
+      case AF_EMPLACE_BACK_FIELDS: window([&] { FieldAlias<E>::emplace_back(v, src); }); m.push_back(x); break;
     }
     if (threw) violation("C10", "alias.unexpected_exception", fmt("aliased call threw %s", threw_what.c_str()));
     else {
